@@ -11,7 +11,7 @@ m = {
     "hooks": {
         "guard": "verif",
         "enable": "harnesses and the sym support package are injected by go/packages overlay (and go test -overlay for replay) with -tags=verif; nothing is committed to /repo for hooks",
-        "baseline_off_cmd": "cd /repo && GOFLAGS=-mod=readonly GOPROXY=off go test -vet=off -count=1 -timeout 25m ./...",
+        "baseline_off_cmd": "python3 /verif/baseline_check.py",
         "source_commits": [],
         "add_only": True,
     },
